@@ -3,9 +3,10 @@
 id=$1; prop=$2; b=${3:-40}
 cd /repo || exit 2
 git diff --quiet || { echo "/repo working tree not clean"; exit 2; }
-git apply /verif/seeded/$id/patch.diff || git apply --3way /verif/seeded/$id/patch.diff || { echo "patch does not apply"; git checkout -- .; exit 2; }
+git apply /verif/seeded/$id/patch.diff || git apply --3way /verif/seeded/$id/patch.diff || { echo "patch does not apply"; git reset -q --hard HEAD; exit 2; }
+if git status --short | grep -q '^UU'; then echo "patch does not apply (conflict)"; git reset -q --hard HEAD; exit 2; fi
 git reset -q
 cd /verif && VERIF_BUDGET_S=$b ./check $prop quick; rc=$?
-git -C /repo checkout -- .
+git -C /repo reset -q --hard HEAD
 echo "try_mutant $id $prop -> exit $rc"
 exit $rc
